@@ -1,7 +1,10 @@
 (* C09 - Flatten removes all hierarchy and preserves leaf-level connectivity. Property theorems only. *)
-From Coq Require Import List NArith.
-From SV Require Import Base.Base IR.State IR.NS IR.Ops Xform.Clone Xform.Xform
-  Proofs.Inv1a Proofs.Inv2a Proofs.InvP Proofs.InvW Proofs.XformInv Proofs.CloneFull Proofs.FlatLeaf.
+From Coq Require Import List NArith String.
+From Coq Require Import Relations.
+From SV Require Import Base.Base IR.State IR.NS IR.Ops Xform.Clone Xform.Strs Xform.Xform Hier.Paths Hier.Conn
+  Proofs.Inv1a Proofs.Inv2a Proofs.InvP Proofs.InvW Proofs.XformInv Proofs.CloneFull Proofs.FlatLeaf
+  Proofs.FlatEff Proofs.FlatPaths Proofs.FlatWalk Proofs.FlatNames Proofs.FlatCables
+  Proofs.FlatConnRel Proofs.FlatConnPin Proofs.FlatConn Proofs.FlatConnOcc.
 
 (* "the netlist stays well-formed": flatten is a composition of public IR calls, so whatever it
    moves, every container keeps listing exactly the elements that name it as parent, once ... *)
@@ -47,9 +50,10 @@ Proof. exact flatten_leaves. Qed.
 Print Assumptions C09_no_hierarchy_left_from.
 
 (* The flatness clause as first written (no hypothesis on the start state); proved above for every
-   reachable state. The remaining clauses (one leaf per leaf path named by the joined path, endpoint
-   partition equal) are checked on every run by the correspondence of the flatten model with the
-   implementation and by the elaboration oracle. *)
+   reachable state. The remaining clauses (one leaf per leaf path, names, cables, endpoint partition)
+   are proved further down for uniquified designs (C09_leaves_exact ... C09_connectivity_holds) and are
+   also checked on every run by the correspondence of the flatten model with the implementation and by
+   the elaboration oracle. *)
 Definition C09_full : Prop := forall fuel x n x' t d,
   flatten fuel x n = (x', None) -> top (st x') n = Some t -> iref (st x') t = Some d ->
   forall c, In c (kids (st x') RChildren d) ->
@@ -71,3 +75,384 @@ Example C09_sample :
   kids s' RChildren 9 = (6 :: nil) /\ iref s' 6 = Some 2 /\ is_leaf_def s' 2 = true /\
   get_str s' 6 str_NAME = Some (97%N :: 47%N :: 105%N :: nil) /\ kids s' RCables 9 = (7 :: nil).
 Proof. vm_compute. repeat split. Qed.
+
+
+(* ================================================================================================
+   Exactly one leaf instance per leaf path, named by the joined path; cables; data.
+   Hypothesis [Uniquified s t] (Proofs/FlatPaths.v): every instance strictly below the top instance t
+   passes uniquify's own test (its definition has exactly one reference, or is a leaf cell), and the top
+   instance does not occur below itself (true in every acyclic design). [uniquified_b] decides it.
+   Paths are lists of instances, LEAF FIRST, top instance last ([is_rpath] of the hier engine).
+   [UF s] is the structural invariant of every state reachable by editing calls, clone, uniquify, flatten
+   ([reachable_uf], [xrun_uf]).
+   ================================================================================================ *)
+
+(* in a uniquified design an instance has exactly one path from the top instance *)
+Theorem C09_one_path_per_instance : forall s t c p q,
+  UF s -> Uniquified s t -> is_rpath s t (c :: p) -> is_rpath s t (c :: q) -> p = q.
+Proof. intros s t c p q U Hu. apply (rpath_unique s t (inv_a _ (proj1 U)) (inv_r _ (proj1 U)) Hu). Qed.
+Print Assumptions C09_one_path_per_instance.
+
+Theorem C09_uniquified_decidable : forall s t, Inv1a s -> uniquified_b s t = true -> Uniquified s t.
+Proof. exact uniquified_b_sound. Qed.
+Print Assumptions C09_uniquified_decidable.
+
+Theorem C09_acyclic_top_not_below_itself : forall s t, acyclic s -> ~ Below s t t.
+Proof. exact acyclic_not_below. Qed.
+Print Assumptions C09_acyclic_top_not_below_itself.
+
+(* LEAVES. After a completed flatten of a uniquified design the children of the top definition are
+   exactly - as a duplicate-free list - the leaf instances that were reachable below the top instance
+   before (the same objects: flatten moves instances, it does not copy them; references unchanged).
+   With C09_one_path_per_instance: one child per leaf path. *)
+Theorem C09_leaves_exact : forall fuel x n x' t topd,
+  UF (st x) -> Uniquified (st x) t -> top (st x) n = Some t -> iref (st x) t = Some topd ->
+  flatten fuel x n = (x', None) ->
+  (forall c, In c (kids (st x') RChildren topd) <-> Below (st x) t c /\ Leafy (st x) c) /\
+  NoDup (kids (st x') RChildren topd) /\ iref (st x') = iref (st x).
+Proof. exact flatten_children. Qed.
+Print Assumptions C09_leaves_exact.
+
+(* the same from the empty store through any editing history *)
+Theorem C09_leaves_exact_reachable : forall ops u f fuel n t topd x',
+  let s := run ops init in
+  Uniquified s t -> top s n = Some t -> iref s t = Some topd -> flatten fuel (mkX s u f) n = (x', None) ->
+  forall c, In c (kids (st x') RChildren topd) <->
+            (exists y p, is_rpath s t (c :: y :: p)) /\ (exists d, iref s c = Some d /\ is_leaf_def s d = true).
+Proof.
+  intros ops u f fuel n t topd x' s Hu Ht Hr E.
+  apply (proj1 (flatten_children fuel (mkX s u f) n x' t topd (reachable_uf ops) Hu Ht Hr E)).
+Qed.
+Print Assumptions C09_leaves_exact_reachable.
+
+(* NAMES. The name after flatten of every instance below the top (path c :: y :: p, leaf first) is the
+   value the code computes, [pname]: prefix of the enclosing instance, "/", own name - where an EMPTY
+   prefix (child of the top definition, or enclosing instances all named "") means "keep the name". *)
+Theorem C09_name_as_computed : forall fuel x n x' t topd c y p,
+  UF (st x) -> Uniquified (st x) t -> top (st x) n = Some t -> iref (st x) t = Some topd ->
+  flatten fuel x n = (x', None) ->
+  is_rpath (st x) t (c :: y :: p) -> get_str (st x') c str_NAME = pname (st x) (c :: y :: p).
+Proof. intros fuel x n x' t topd c y p U Hu Ht Hr E. apply (flatten_name_code fuel x n x' t topd U Hu Ht Hr E). Qed.
+Print Assumptions C09_name_as_computed.
+
+(* ... which is the slash-joined list of the names along the path, top-most first, whenever no
+   hierarchical instance on the path is named "" ([onames] = those names, None if one is missing) *)
+Theorem C09_name_is_joined_path : forall fuel x n x' t topd c y p l,
+  UF (st x) -> Uniquified (st x) t -> top (st x) n = Some t -> iref (st x) t = Some topd ->
+  flatten fuel x n = (x', None) ->
+  is_rpath (st x) t (c :: y :: p) -> onames (st x) (c :: y :: p) = Some l ->
+  Forall (fun a : str => a <> nil) (removelast l) ->
+  get_str (st x') c str_NAME = Some (join_slash l).
+Proof. intros fuel x n x' t topd c y p l U Hu Ht Hr E. apply (flatten_name_joined fuel x n x' t topd U Hu Ht Hr E). Qed.
+Print Assumptions C09_name_is_joined_path.
+
+(* unnamed instances, as the code treats them: a child of the top definition without a name stays
+   without one; anywhere else an instance that came up under a non-empty prefix had a name, and every
+   enclosing instance has a flat name (otherwise [None + "/"] / ["a/" + None] raise TypeError and the
+   call does not complete) *)
+Theorem C09_unnamed_top_child_stays : forall fuel x n x' t topd c,
+  UF (st x) -> Uniquified (st x) t -> top (st x) n = Some t -> iref (st x) t = Some topd ->
+  flatten fuel x n = (x', None) ->
+  is_rpath (st x) t (c :: t :: nil) -> get_str (st x') c str_NAME = get_str (st x) c str_NAME.
+Proof. intros fuel x n x' t topd c U Hu Ht Hr E. apply (flatten_top_child_name fuel x n x' t topd U Hu Ht Hr E). Qed.
+Print Assumptions C09_unnamed_top_child_stays.
+
+Theorem C09_named_below_top_level : forall fuel x n x' t topd c y p,
+  UF (st x) -> Uniquified (st x) t -> top (st x) n = Some t -> iref (st x) t = Some topd ->
+  flatten fuel x n = (x', None) ->
+  is_rpath (st x) t (c :: y :: p) ->
+  exists a, pname (st x) (y :: p) = Some a /\ (a <> nil -> get_str (st x) c str_NAME <> None).
+Proof. intros fuel x n x' t topd c y p U Hu Ht Hr E. apply (flatten_named_below fuel x n x' t topd U Hu Ht Hr E). Qed.
+Print Assumptions C09_named_below_top_level.
+
+(* data: on every object every entry other than the name, EDIF.identifier and the namespace tag '.NS'
+   (re-set by add_child/add_cable to the tag of the top definition) is unchanged *)
+Theorem C09_data_unchanged : forall fuel x n x' t topd e k,
+  UF (st x) -> Uniquified (st x) t -> top (st x) n = Some t -> iref (st x) t = Some topd ->
+  flatten fuel x n = (x', None) ->
+  k <> str_NAME -> k <> str_IDENT -> k <> str_NS -> sassoc k (data (st x') e) = sassoc k (data (st x) e).
+Proof. intros fuel x n x' t topd e k U Hu Ht Hr E. apply (flatten_data fuel x n x' t topd U Hu Ht Hr E). Qed.
+Print Assumptions C09_data_unchanged.
+
+(* ... and objects that are neither instances below the top nor cables that came up keep everything *)
+Theorem C09_untouched_objects : forall fuel x n x' t topd e,
+  UF (st x) -> Uniquified (st x) t -> top (st x) n = Some t -> iref (st x) t = Some topd ->
+  flatten fuel x n = (x', None) ->
+  ~ Below (st x) t e -> ~ MovedCable (st x) t e -> data (st x') e = data (st x) e.
+Proof. intros fuel x n x' t topd e U Hu Ht Hr E. apply (flatten_untouched_data fuel x n x' t topd U Hu Ht Hr E). Qed.
+Print Assumptions C09_untouched_objects.
+
+(* CABLES. [MovedCable s t cb]: cb is a cable of the definition of a non-leaf instance below the top.
+   Those cables end up in the top definition (same objects), all others stay where they are ... *)
+Theorem C09_cables_of_top : forall fuel x n x' t topd cb,
+  UF (st x) -> Uniquified (st x) t -> top (st x) n = Some t -> iref (st x) t = Some topd ->
+  flatten fuel x n = (x', None) ->
+  (In cb (kids (st x') RCables topd) <-> par (st x) RCables cb = Some topd \/ MovedCable (st x) t cb).
+Proof. intros fuel x n x' t topd cb U Hu Ht Hr E. apply (flatten_top_cables fuel x n x' t topd U Hu Ht Hr E). Qed.
+Print Assumptions C09_cables_of_top.
+
+Theorem C09_cables_elsewhere : forall fuel x n x' t topd d cb,
+  UF (st x) -> Uniquified (st x) t -> top (st x) n = Some t -> iref (st x) t = Some topd ->
+  flatten fuel x n = (x', None) -> d <> topd ->
+  (In cb (kids (st x') RCables d) <-> In cb (kids (st x) RCables d) /\ ~ MovedCable (st x) t cb).
+Proof. intros fuel x n x' t topd d cb U Hu Ht Hr E. apply (flatten_other_cables fuel x n x' t topd U Hu Ht Hr E). Qed.
+Print Assumptions C09_cables_elsewhere.
+
+(* ... a definition not instantiated by any instance below the top keeps its cables ... *)
+Theorem C09_cables_stay : forall fuel x n x' t topd d,
+  UF (st x) -> Uniquified (st x) t -> top (st x) n = Some t -> iref (st x) t = Some topd ->
+  flatten fuel x n = (x', None) -> d <> topd -> (forall y, Below (st x) t y -> iref (st x) y <> Some d) ->
+  forall cb, In cb (kids (st x') RCables d) <-> In cb (kids (st x) RCables d).
+Proof. intros fuel x n x' t topd d U Hu Ht Hr E. apply (flatten_cables_stay fuel x n x' t topd U Hu Ht Hr E). Qed.
+Print Assumptions C09_cables_stay.
+
+(* ... wires keep their cable, pins their port, ports their definition (lists in order, back pointers) ... *)
+Theorem C09_wires_keep_their_cable : forall fuel x n x' t topd r e,
+  UF (st x) -> Uniquified (st x) t -> top (st x) n = Some t -> iref (st x) t = Some topd ->
+  flatten fuel x n = (x', None) -> r <> RChildren -> r <> RCables ->
+  par (st x') r e = par (st x) r e /\ kids (st x') r e = kids (st x) r e.
+Proof. intros fuel x n x' t topd r e U Hu Ht Hr E. apply (flatten_wires_ports fuel x n x' t topd U Hu Ht Hr E). Qed.
+Print Assumptions C09_wires_keep_their_cable.
+
+(* ... and a cable that came up is renamed by the flat name of its instance, the same way *)
+Theorem C09_cable_names : forall fuel x n x' t topd y z p d cb,
+  UF (st x) -> Uniquified (st x) t -> top (st x) n = Some t -> iref (st x) t = Some topd ->
+  flatten fuel x n = (x', None) ->
+  is_rpath (st x) t (y :: z :: p) -> iref (st x) y = Some d -> is_leaf_def (st x) d = false ->
+  par (st x) RCables cb = Some d ->
+  exists a, pname (st x) (y :: z :: p) = Some a /\ get_str (st x') cb str_NAME = joino a (get_str (st x) cb str_NAME).
+Proof. intros fuel x n x' t topd y z p d cb U Hu Ht Hr E. apply (flatten_cable_name fuel x n x' t topd U Hu Ht Hr E). Qed.
+Print Assumptions C09_cable_names.
+
+(* a 3-level design with two leaves under different branches:
+     T = { a : M1, b : M2 }   M1 = { u : L, cable c1 }   M2 = { m : M3 }   M3 = { v : L, cable c3 }
+   it is uniquified, flatten completes, the top definition (15) then holds exactly the leaves u (12) and
+   v (6) named "a/u" and "b/m/v", and the cables c1 (13), c3 (7) named "a/c1", "b/m/c3" with their wires *)
+Definition c09_nm (s : string) : option str := Some (s2l s).
+Definition c09_ops3 : list op :=
+  (ONew KNetlist None nil :: OCreate RLibs 0 None nil 0 None ::
+   OCreate RDefs 1 (c09_nm "L") nil 0 None :: OCreate RPorts 2 (c09_nm "p") nil 1 None ::
+   OCreate RDefs 1 (c09_nm "M3") nil 0 None :: OCreate RChildren 5 (c09_nm "v") nil 0 (Some 2) ::
+   OCreate RCables 5 (c09_nm "c3") nil 1 None :: OConnect 8 (POut 6 4) None ::
+   OCreate RDefs 1 (c09_nm "M2") nil 0 None :: OCreate RChildren 9 (c09_nm "m") nil 0 (Some 5) ::
+   OCreate RDefs 1 (c09_nm "M1") nil 0 None :: OCreate RChildren 11 (c09_nm "u") nil 0 (Some 2) ::
+   OCreate RCables 11 (c09_nm "c1") nil 1 None :: OConnect 14 (POut 12 4) None ::
+   OCreate RDefs 1 (c09_nm "T") nil 0 None :: OCreate RChildren 15 (c09_nm "a") nil 0 (Some 11) ::
+   OCreate RChildren 15 (c09_nm "b") nil 0 (Some 9) :: OSetTop 0 (TopDef 15) ::
+   (* a net through the boundary of a: M1 gets a port mp (19, pin 20) on its wire 14; T gets a port tp (21, pin 22)
+      and a cable tc (23, wire 24) that joins tp with a.mp *)
+   OCreate RPorts 11 (c09_nm "mp") nil 1 None :: OConnect 14 (PIn 20) None ::
+   OCreate RPorts 15 (c09_nm "tp") nil 1 None :: OCreate RCables 15 (c09_nm "tc") nil 1 None ::
+   OConnect 24 (PIn 22) None :: OConnect 24 (POut 16 20) None :: nil)%string.
+
+Example C09_three_levels :
+  let s := run c09_ops3 init in
+  let r := flatten 50 (mkX s 0 0) 0 in
+  let s' := st (fst r) in
+  top s 0 = Some 18 /\ iref s 18 = Some 15 /\ uniquified_b s 18 = true /\ snd r = None /\
+  kids s RChildren 15 = (16 :: 17 :: nil) /\
+  kids s' RChildren 15 = (12 :: 6 :: nil) /\ kids s' RCables 15 = (23 :: 13 :: 7 :: nil) /\
+  get_str s' 12 str_NAME = c09_nm "a/u" /\ get_str s' 6 str_NAME = c09_nm "b/m/v" /\
+  get_str s' 13 str_NAME = c09_nm "a/c1" /\ get_str s' 7 str_NAME = c09_nm "b/m/c3" /\
+  pname s (6 :: 10 :: 17 :: 18 :: nil) = c09_nm "b/m/v" /\
+  onames s (6 :: 10 :: 17 :: 18 :: nil) = Some (s2l "b" :: s2l "m" :: s2l "v" :: nil) /\
+  par s' RWires 8 = Some 7 /\ par s' RWires 14 = Some 13.
+Proof. vm_compute. repeat split. Qed.
+
+(* the hypotheses of the theorems above hold of that design, so they apply to it *)
+Example C09_three_levels_hypotheses :
+  let s := run c09_ops3 init in
+  UF s /\ Uniquified s 18 /\ is_rpath s 18 (6 :: 10 :: 17 :: 18 :: nil) /\ is_rpath s 18 (12 :: 16 :: 18 :: nil).
+Proof.
+  cbv zeta. split; [apply reachable_uf|]. split.
+  - apply uniquified_b_sound; [apply (inv_a _ (proj1 (reachable_uf c09_ops3)))|vm_compute; reflexivity].
+  - split; repeat (apply rp_child; [|vm_compute; tauto]); apply rp_top.
+Qed.
+
+(* ================================================================================================
+   CONNECTIVITY.
+   [dissolve pw inst i] (Proofs/FlatConnRel.v): what _redo_connections does for the inner pin i of
+   instance inst, on the pin -> wire map: both pins of the boundary come off their wires and, when both
+   were wired, every pin of the inner wire goes to the outer wire.
+   [E D pw p q]: p and q are both wired and their wires are tied by boundary crossings of instances in D.
+   [HP s t p]: p is a pin of a boundary that flatten dissolves (outer pin of a hierarchical instance below
+   the top, port pin of its definition). [Endpoint]: pin of a leaf instance below the top, or pin of a port
+   of the top definition. [conn], [hwire_occ], [WFc]: the hier engine's connectivity relation on wire
+   occurrences and its well-formedness (pins and wires point at each other, a wire touches only pins of
+   its own definition's ports and children). [Cabled]: a wire that holds a pin belongs to a cable.
+   ================================================================================================ *)
+
+(* the exact effect of _redo_connections for one pin on the pin -> wire map, in every state satisfying Inv *)
+Theorem C09_redo_pin_exact : forall x inst i x',
+  Inv (st x) -> redo_pin x inst i = (x', None) ->
+  forall p, pin_wire (st x') p = dissolve (pin_wire (st x)) inst i p.
+Proof. exact redo_pin_pw. Qed.
+Print Assumptions C09_redo_pin_exact.
+
+(* one boundary: dissolving it keeps the partition of all other pins (pass-through wires tied to several
+   ports, unconnected sides and inner = outer wire included) *)
+Theorem C09_one_boundary_keeps_partition : forall (D : id -> Prop) inst i pw,
+  D inst -> (forall n, D n -> n <> inst -> pw (POut n i) = None) ->
+  forall p q, p <> POut inst i -> p <> PIn i -> q <> POut inst i -> q <> PIn i ->
+    (E D (dissolve pw inst i) p q <-> E D pw p q).
+Proof. exact dissolve_keeps. Qed.
+Print Assumptions C09_one_boundary_keeps_partition.
+
+(* lifted along the walk: after a completed flatten of a uniquified design the partition of all pins
+   outside the dissolved boundaries is what it was; the dissolved outer pins are off; nothing unwired
+   got wired *)
+Theorem C09_partition_preserved : forall fuel x n x' t topd,
+  UF (st x) -> Uniquified (st x) t -> top (st x) n = Some t -> iref (st x) t = Some topd ->
+  flatten fuel x n = (x', None) ->
+  (forall p q, ~ HP (st x) t p -> ~ HP (st x) t q ->
+     (E (Below (st x) t) (pin_wire (st x')) p q <-> E (Below (st x) t) (pin_wire (st x)) p q)) /\
+  (forall c j, Below (st x) t c -> hierb (st x) c = true -> pin_wire (st x') (POut c j) = None) /\
+  (forall p, pin_wire (st x) p = None -> pin_wire (st x') p = None).
+Proof. exact flatten_conn. Qed.
+Print Assumptions C09_partition_preserved.
+
+(* with black-box leaf cells, "connected" afterwards is "on the same wire" *)
+Theorem C09_same_wire_iff_connected : forall fuel x n x' t topd,
+  UF (st x) -> Uniquified (st x) t -> top (st x) n = Some t -> iref (st x) t = Some topd ->
+  flatten fuel x n = (x', None) -> LeafPinsFree (st x) t ->
+  forall p q, ~ HP (st x) t p -> ~ HP (st x) t q ->
+    ((exists w, pin_wire (st x') p = Some w /\ pin_wire (st x') q = Some w) <-> E (Below (st x) t) (pin_wire (st x)) p q).
+Proof. exact flatten_conn_same_wire. Qed.
+Print Assumptions C09_same_wire_iff_connected.
+
+(* in a uniquified design the wire partition IS the hier engine's connectivity of wire occurrences *)
+Theorem C09_wire_partition_is_conn : forall s t h h' u v,
+  UF s -> Uniquified s t -> WFc s -> Cabled s ->
+  occ_of s t h u -> occ_of s t h' v -> (conn s t h h' <-> wconn (Below s t) (pin_wire s) u v).
+Proof. intros s t h h' u v U Hu Hc Hcab. apply (conn_iff_wconn s t U Hu Hc Hcab). Qed.
+Print Assumptions C09_wire_partition_is_conn.
+
+(* the connectivity clause at full strength: two endpoints are on the same wire of the flat netlist exactly
+   when the wires they were on were connected through the hierarchy before *)
+Definition C09_connectivity_full : Prop := forall fuel x n x' t topd p q u v h h',
+  UF (st x) -> Uniquified (st x) t -> top (st x) n = Some t -> iref (st x) t = Some topd ->
+  WFc (st x) -> Cabled (st x) -> flatten fuel x n = (x', None) ->
+  Endpoint (st x) t topd p -> Endpoint (st x) t topd q ->
+  pin_wire (st x) p = Some u -> pin_wire (st x) q = Some v -> occ_of (st x) t h u -> occ_of (st x) t h' v ->
+  ((exists w, pin_wire (st x') p = Some w /\ pin_wire (st x') q = Some w) <-> conn (st x) t h h').
+
+Theorem C09_connectivity_holds : C09_connectivity_full.
+Proof.
+  intros fuel x n x' t topd p q u v h h' U Hu Htop Ht Hc Hcab E0.
+  apply (flatten_connectivity fuel x n x' t topd U Hu Htop Ht Hc Hcab E0).
+Qed.
+Print Assumptions C09_connectivity_holds.
+
+(* the quantifiers are not empty: a wired endpoint's wire has an occurrence; endpoints stay wired / unwired *)
+Theorem C09_endpoint_wire_occurs : forall x t topd p u,
+  UF (st x) -> iref (st x) t = Some topd -> WFc (st x) -> Cabled (st x) ->
+  Endpoint (st x) t topd p -> pin_wire (st x) p = Some u -> exists h, occ_of (st x) t h u.
+Proof. intros x t topd p u U Ht Hc Hcab. apply (endpoint_occ x t topd U Ht Hc Hcab). Qed.
+Print Assumptions C09_endpoint_wire_occurs.
+
+Theorem C09_endpoints_stay_wired : forall fuel x n x' t topd p u,
+  UF (st x) -> Uniquified (st x) t -> top (st x) n = Some t -> iref (st x) t = Some topd ->
+  WFc (st x) -> Cabled (st x) -> flatten fuel x n = (x', None) ->
+  Endpoint (st x) t topd p -> pin_wire (st x) p = Some u -> exists w, pin_wire (st x') p = Some w.
+Proof. intros fuel x n x' t topd p u U Hu Htop Ht Hc Hcab E0. apply (flatten_wired_stays fuel x n x' t topd U Hu Htop Ht Hc Hcab E0). Qed.
+Print Assumptions C09_endpoints_stay_wired.
+
+Theorem C09_unwired_stay_unwired : forall fuel x n x' t topd p,
+  UF (st x) -> Uniquified (st x) t -> top (st x) n = Some t -> iref (st x) t = Some topd ->
+  flatten fuel x n = (x', None) -> pin_wire (st x) p = None -> pin_wire (st x') p = None.
+Proof. intros fuel x n x' t topd p U Hu Htop Ht E0. apply (flatten_unwired_stays fuel x n x' t topd U Hu Htop Ht E0). Qed.
+Print Assumptions C09_unwired_stay_unwired.
+
+(* the hypotheses on wires are decidable *)
+Theorem C09_wire_hypotheses_decidable : forall s,
+  UF s -> (forallb (wfc_wire_b s) (all_ids s) = true -> WFc s) /\ (cabled_b s = true -> Cabled s).
+Proof. intros s U. split; [apply wfc_b_sound; exact U|apply cabled_b_sound; exact U]. Qed.
+Print Assumptions C09_wire_hypotheses_decidable.
+
+(* on the design of C09_three_levels: the pin p of leaf u (instance 12, pin 4) and the pin of the top port tp
+   (22) end up on the same wire (24); the hypotheses of C09_connectivity_holds hold, so the theorem says the
+   occurrences of their wires - 14 in cable c1 inside a, 24 in cable tc of the top - were connected *)
+Example C09_three_levels_net :
+  let s := run c09_ops3 init in
+  let s' := st (fst (flatten 50 (mkX s 0 0) 0)) in
+  wpins s 24 = (PIn 22 :: POut 16 20 :: nil) /\ wpins s 14 = (POut 12 4 :: PIn 20 :: nil) /\
+  pin_wire s' (POut 12 4) = Some 24 /\ pin_wire s' (PIn 22) = Some 24 /\
+  wpins s' 24 = (PIn 22 :: POut 12 4 :: nil) /\ wpins s' 14 = nil /\
+  forallb (wfc_wire_b s) (all_ids s) = true /\ cabled_b s = true.
+Proof. vm_compute. repeat split. Qed.
+
+Definition c09_x3 : xstate := mkX (run c09_ops3 init) 0 0.
+Lemma c09_uf_mk ops u f : UF (st (mkX (run ops init) u f)).
+Proof. apply reachable_uf. Qed.
+
+Example C09_three_levels_connected :
+  conn (st c09_x3) 18 (14 :: 13 :: 16 :: 18 :: nil) (24 :: 23 :: 18 :: nil).
+Proof.
+  set (x := c09_x3).
+  assert (U : UF (st x)) by exact (c09_uf_mk c09_ops3 0 0).
+  assert (Hu : Uniquified (st x) 18) by (apply uniquified_b_sound; [apply (inv_a _ (proj1 U))|vm_compute; reflexivity]).
+  assert (Hc : WFc (st x)) by (apply wfc_b_sound; [exact U|vm_compute; reflexivity]).
+  assert (Hcab : Cabled (st x)) by (apply cabled_b_sound; [exact U|vm_compute; reflexivity]).
+  assert (Htop : top (st x) 0 = Some 18) by (vm_compute; reflexivity).
+  assert (Ht : iref (st x) 18 = Some 15) by (vm_compute; reflexivity).
+  assert (Ho : snd (flatten 50 x 0) = None) by (vm_compute; reflexivity).
+  assert (Hsame : exists w, pin_wire (st (fst (flatten 50 x 0))) (POut 12 4) = Some w /\
+                            pin_wire (st (fst (flatten 50 x 0))) (PIn 22) = Some w)
+    by (exists 24; vm_compute; split; reflexivity).
+  destruct (flatten 50 x 0) as [x' o] eqn:E3. cbn [fst snd] in Ho, Hsame. subst o.
+  assert (C1 : child (st x) 16 18) by (vm_compute; tauto).
+  assert (C2 : child (st x) 12 16) by (vm_compute; tauto).
+  assert (P1 : is_rpath (st x) 18 (16 :: 18 :: nil)) by (apply rp_child; [apply rp_top|exact C1]).
+  assert (P2 : is_rpath (st x) 18 (12 :: 16 :: 18 :: nil)) by (apply rp_child; [exact P1|exact C2]).
+  assert (Hl : hierb (st x) 12 = false) by (vm_compute; reflexivity).
+  assert (Ep : Endpoint (st x) 18 15 (POut 12 4)).
+  { left. exists 12, 4. split; [reflexivity|]. split; [exists 16, (18 :: nil); exact P2|exact Hl]. }
+  assert (Eq : Endpoint (st x) 18 15 (PIn 22)).
+  { right. exists 22, 21. split; [reflexivity|]. split; vm_compute; reflexivity. }
+  assert (Wp : pin_wire (st x) (POut 12 4) = Some 14) by (vm_compute; reflexivity).
+  assert (Wq : pin_wire (st x) (PIn 22) = Some 24) by (vm_compute; reflexivity).
+  assert (O1 : occ_of (st x) 18 (14 :: 13 :: 16 :: 18 :: nil) 14).
+  { split; [|reflexivity]. exists 14, 13, 16, (18 :: nil). split; [reflexivity|]. split; [exact P1|]. split; vm_compute; tauto. }
+  assert (O2 : occ_of (st x) 18 (24 :: 23 :: 18 :: nil) 24).
+  { split; [|reflexivity]. exists 24, 23, 18, nil. split; [reflexivity|]. split; [apply rp_top|]. split; vm_compute; tauto. }
+  exact (proj1 (C09_connectivity_holds 50 x 0 x' 18 15 (POut 12 4) (PIn 22) 14 24 _ _ U Hu Htop Ht Hc Hcab E3 Ep Eq Wp Wq O1 O2) Hsame).
+Qed.
+
+(* The clause "named by the slash-joined instance names along that path" read literally - for every
+   path whose instances all have names - is false of the code: flatten tests [add_to_name != ""] to
+   decide whether there is an enclosing instance, so below a hierarchical instance whose name is the
+   empty string the leaf keeps its own name ("v" instead of "/v"). Witness: T = { "" : M }, M = { v : L };
+   replayed on the implementation (see the report; flatten gives ['v']). *)
+Definition C09_names_literal : Prop := forall ops u f fuel n t topd x' c y p l,
+  let s := run ops init in
+  Uniquified s t -> top s n = Some t -> iref s t = Some topd -> flatten fuel (mkX s u f) n = (x', None) ->
+  is_rpath s t (c :: y :: p) -> onames s (c :: y :: p) = Some l ->
+  get_str (st x') c str_NAME = Some (join_slash l).
+
+Definition c09_ops_empty : list op :=
+  (ONew KNetlist None nil :: OCreate RLibs 0 None nil 0 None ::
+   OCreate RDefs 1 (c09_nm "L") nil 0 None ::
+   OCreate RDefs 1 (c09_nm "M") nil 0 None :: OCreate RChildren 3 (c09_nm "v") nil 0 (Some 2) ::
+   OCreate RDefs 1 (c09_nm "T") nil 0 None :: OCreate RChildren 5 (c09_nm "") nil 0 (Some 3) ::
+   OSetTop 0 (TopDef 5) :: nil)%string.
+
+Theorem C09_names_literal_refuted : ~ C09_names_literal.
+Proof.
+  intro H.
+  pose (s := run c09_ops_empty init).
+  assert (Hu : Uniquified s 7).
+  { apply uniquified_b_sound; [apply (inv_a _ (proj1 (reachable_uf c09_ops_empty)))|vm_compute; reflexivity]. }
+  assert (Hp : is_rpath s 7 (4 :: 6 :: 7 :: nil)) by (repeat (apply rp_child; [|vm_compute; tauto]); apply rp_top).
+  specialize (H c09_ops_empty 0 0 50 0 7 5 (fst (flatten 50 (mkX s 0 0) 0)) 4 6 (7 :: nil)
+                (s2l "" :: s2l "v" :: nil)%string Hu).
+  cbv zeta in H. fold s in H.
+  assert (E1 : top s 0 = Some 7) by (vm_compute; reflexivity).
+  assert (E2 : iref s 7 = Some 5) by (vm_compute; reflexivity).
+  assert (E3 : flatten 50 (mkX s 0 0) 0 = (fst (flatten 50 (mkX s 0 0) 0), None)).
+  { assert (E : snd (flatten 50 (mkX s 0 0) 0) = None) by (vm_compute; reflexivity).
+    destruct (flatten 50 (mkX s 0 0) 0) as [a b]. cbn in E. subst b. reflexivity. }
+  assert (E4 : onames s (4 :: 6 :: 7 :: nil) = Some (s2l "" :: s2l "v" :: nil)%string) by (vm_compute; reflexivity).
+  specialize (H E1 E2 E3 Hp E4).
+  vm_compute in H. discriminate H.
+Qed.
+Print Assumptions C09_names_literal_refuted.
